@@ -123,6 +123,19 @@ def check(rep, tier, seed):
         sfiles.append(path)
         mc = "create 0 %s %s - %s" % (",".join(cols), model_samples(sm), model_records(recs))
         jobs.append((["create", "-S", path], render_vcf(cols, recs))); mcases.append(mc); metas.append("samples-file-spaced-labels:" + mc)
+    # a samples file beyond 64 KiB (about a thousand samples with long names): every line of it counts
+    ncol = 1000
+    bcols = ["sample_%04d_%s" % (i, "x" * 56) for i in range(ncol)]
+    brecs = [[rng.choice(["0/0", "0/0", "0/1", "1/1", "0|1"]) for _ in bcols] for _ in range(8)]
+    brecs[2][ncol - 3] = "./."; brecs[5][ncol - 1] = "0/2"; brecs[6][5] = "./."          # late samples decide, too
+    bsm = [(c, "late" if i >= ncol - 12 else "early") for i, c in enumerate(bcols) if i % 17 != 3]
+    bsm = bsm[-12:] + bsm[:-12]                                                        # the small population is listed first
+    bpath = os.path.join(WORK, "c01_samples_big.txt")
+    open(bpath, "wb").write(samples_file_bytes(bsm))
+    rep.coverage["big_samples_file_bytes"] = os.path.getsize(bpath)
+    sfiles.append(bpath)
+    mc = "create 0 %s %s - %s" % (",".join(bcols), model_samples(bsm), model_records(brecs))
+    jobs.append((["create", "-S", bpath], render_vcf(bcols, brecs))); mcases.append(mc); metas.append("samples-file-over-64KiB:%d entries" % len(bsm))
     exps = run_model(mcases)
     from common import invocation_variants
     invocation_variants(rep, "create-cli:invocation-form", [j for j in jobs if len(j[1]) > 300], rng, n=8 if tier == "quick" else 60)
